@@ -18,6 +18,12 @@ CHECKS = {
     'C19': ('3/C19', 'exhaustive enumeration of all 12-tuples over small value grids, all ordered pairs of the 2916 valid schemes over {0,1,2}, all scalings; exact rational oracle',
             'All 3^12 tuples over {0,1,2} and {-1,0,1} as ints and floats plus malformed shapes decide the validation clause with the documented exception precedence; all 8.5M ordered pairs decide both equivalence tests and the nickname; scaling and score homogeneity are enumerated over all valid schemes / DS(3,2) x all candidates.',
             'penalty grid {0,.5,1,2,3}; bool/nan/inf entries not judged'),
+    'C17': ('3/C17', 'exhaustive enumeration of pairs of datasets over hash-colliding universes in every bucket insertion order, against a structural multiset oracle',
+            'All datasets with <=3 elements and <=2 rankings (thorough: 3 rankings / 4 elements), each bucket presented in every insertion order over labels that collide in set tables, compared pairwise (re-presentations, permutations, near misses, full cross products); ==, symmetry, != and agreement with Ranking.__eq__ matching are decided on every pair.',
+            'CPython set iteration order for colliding keys is insertion order (guarded by a counter of equal datasets that print differently)'),
+    'C18': ('3/C18', 'exhaustive enumeration of all strings over the format alphabet up to length 6 (thorough 7/8) and of all rankings/datasets of the small scope through write/parse',
+            'Every string over the 9-character format alphabet up to length 6 goes through the three parser entry points (ValueError or a result, watchdog for hangs); every ranking of SWO(4) in 30 textual renderings and every dataset of DS(3,2) through a fresh file must come back equal and structurally identical.',
+            'element alphabet as in the statement: non-negative ints; delimiter-free non-int-like strings'),
 }
 
 PENDING = {}
